@@ -36,6 +36,9 @@ type Item struct {
 	Source string            `json:"source"`
 	Pkg    string            `json:"pkg"` // import path
 	Known  string            `json:"known,omitempty"`
+	// Also lists source files of OTHER packages whose own generated code is placed next to them before
+	// type-checking (a union of another package is used through the wrapper generated for that package)
+	Also []string `json:"also,omitempty"`
 }
 
 type Obs struct {
@@ -107,6 +110,14 @@ func Worker(args []string) {
 			mod.Write(it.Files)
 			rels = append(rels, it.Source)
 		}
+		type alsoRef struct{ item, idx int }
+		var alsos []alsoRef
+		for i, it := range in.Items {
+			for _, a := range it.Also {
+				alsos = append(alsos, alsoRef{i, len(rels)})
+				rels = append(rels, a)
+			}
+		}
 		pkgs, root, err := mod.Load(rels)
 		if err != nil {
 			out.Note = "load failed: " + err.Error()
@@ -158,6 +169,26 @@ func Worker(args []string) {
 				}
 				out.Obs = append(out.Obs, o)
 			}
+			// companions: the code the same generator emits for the other packages' files
+			var companions []string
+			for _, a := range alsos {
+				if _, ok := obsIdx[a.item]; !ok {
+					continue
+				}
+				var ana *analysis.Analysis
+				if class, _ := synth.Guard(func() { ana = analysis.NewAnalysisFromFile(pkgs[a.idx], mod.Abs(rels[a.idx])) }); class != synth.OutOK {
+					continue
+				}
+				g := gens.Run(v, pkgs[a.idx], mod.Abs(rels[a.idx]), ana, root)
+				if g.Class != synth.OutOK {
+					continue
+				}
+				gf := filepath.Join(filepath.Dir(mod.Abs(rels[a.idx])), "zz_generated.go")
+				if fixed, ferr := wire.FixImports(gf, g.Text); ferr == nil {
+					os.WriteFile(gf, []byte(fixed), 0o644)
+					companions = append(companions, gf)
+				}
+			}
 			if len(check) > 0 {
 				cfg := &packages.Config{Dir: mod.Dir, Mode: packages.NeedName | packages.NeedTypes | packages.NeedSyntax | packages.NeedFiles | packages.NeedTypesInfo | packages.NeedImports | packages.NeedDeps}
 				checked, lerr := packages.Load(cfg, check...)
@@ -188,10 +219,24 @@ func Worker(args []string) {
 					}
 					os.Remove(filepath.Join(filepath.Dir(mod.Abs(rels[i])), "zz_generated.go"))
 				}
+				for _, gf := range companions {
+					os.Remove(gf)
+				}
 			}
 		}
 		return out
 	})
+}
+
+// witnessForeignUnion: a struct field typed by an exported union of ANOTHER package: the wrapper it is encoded
+// through is the one generated for that package (sub.ShapeWrapper), so both packages get their generated code.
+func witnessForeignUnion(id int) *absprog.Prog {
+	return &absprog.Prog{ID: id, Decls: []absprog.Decl{
+		{K: "iface", Name: "Shape", Pkg: "sub", IMethods: []string{"isShape"}},
+		{K: "struct", Name: "Circle", Pkg: "sub", Fields: []absprog.Field{{Name: "R", Type: absprog.Basic("int")}}, Methods: []absprog.Method{{Name: "isShape"}}},
+		{K: "struct", Name: "Square", Pkg: "sub", Fields: []absprog.Field{{Name: "Side", Type: absprog.Basic("int")}}, Methods: []absprog.Method{{Name: "isShape"}}},
+		{K: "struct", Name: "Drawing", Fields: []absprog.Field{{Name: "Title", Type: absprog.Basic("string")}, {Name: "Main", Type: absprog.Ref("sub", "Shape")}}},
+	}}
 }
 
 func witnessClash(id int) *absprog.Prog {
@@ -280,6 +325,9 @@ func Run(c *core.Ctx, replay string) (*core.Result, error) {
 		addProg(witnessArray(pid), "witness: named fixed array of a union", arrayKey)
 		pid++
 		addProg(witnessForeign(pid), "struct with a union field and fields typed by other packages", "")
+		pid++
+		addProg(witnessForeignUnion(pid), "struct with a field typed by a union of another package", "")
+		items[len(items)-1].Also = []string{fmt.Sprintf("p%d/sub/sub.go", pid)}
 		// SQL model files
 		u, err := c08.LoadUniverse(c, res)
 		if err != nil {
